@@ -43,7 +43,7 @@ def _warp(rng, curved, far=0.0, far_range=(800.0, 5000.0)):
 
 def gen_network(rng, rows=None, cols=None, ids=None, curved=None, signs=True, lights=True, intersections=True,
                 overlap=None, stop_lines=True, opposite=True, n_pts=None, types=True, extra_links=True, far=0.0,
-                lattice=False, far_range=(800.0, 5000.0), loops=0.0):
+                lattice=False, far_range=(800.0, 5000.0), loops=0.0, many_pts=0.0):
     """Grid of lanelets: row r+1 lies to the left of row r; lanelets of one row are chained.
 
     lattice=True: an unwarped, axis-parallel grid whose coordinates are small multiples of 1/2, so that all
@@ -66,6 +66,8 @@ def gen_network(rng, rows=None, cols=None, ids=None, curved=None, signs=True, li
         L = rng.uniform(8.0, 16.0)
         W = rng.uniform(2.5, 4.5)
         n_pts = n_pts or rng.randint(2, 5)
+        if many_pts > 0.0 and rng.chance(many_pts):
+            n_pts = rng.randint(9, 24)  # finely sampled boundaries: past any "more than a handful of vertices" path
     grid = {}
     lanelets = []
     opp_rows = {r for r in range(rows) if opposite and r == rows - 1 and rows > 1 and rng.chance(0.35)}
@@ -285,7 +287,8 @@ def gen_shape(rng, kinds=("rect", "circ", "poly"), scale=1.0, centered=True, off
 
 
 def gen_obstacle(rng, oid, net, role=None, horizon=None, shape_kinds=("rect", "circ", "poly"), t0=None,
-                 state_cls=None, on_road=0.8, p_stand=0.0, interval_steps=0.0, offset_p=0.0, shuffle_occ=0.0):
+                 state_cls=None, on_road=0.8, p_stand=0.0, interval_steps=0.0, offset_p=0.0, shuffle_occ=0.0,
+                 long_horizon=0.0):
     role = role or rng.weighted(["static", "dynamic", "dynamic_nopred", "dynamic_set", "env", "phantom"],
                                 [3, 4, 1, 1, 1, 1])
     lanelets = net["lanelets"]
@@ -303,6 +306,8 @@ def gen_obstacle(rng, oid, net, role=None, horizon=None, shape_kinds=("rect", "c
         sh = _place(sh, pos, ori)
         return {"id": oid, "role": "env", "type": "BUILDING", "shape": sh}
     horizon = rng.randint(1, 6) if horizon is None else horizon
+    if long_horizon > 0.0 and rng.chance(long_horizon):
+        horizon = rng.randint(9, 30)  # predictions of tens of steps: past any batch size / size threshold
     if role == "phantom":
         occ = [{"t": t0 + k, "shape": _place(gen_shape(rng, ("rect", "circ", "poly")),
                                              [pos[0] + 1.5 * k, pos[1]], ori)} for k in range(horizon)]
